@@ -175,6 +175,7 @@ func c33(args []string) error {
 		gitBudget = 400
 	}
 	gitEvery := len(hists)/gitBudget + 1
+	staleGit, staleGitBudget := 0, gitBudget
 	for hi, h := range hists {
 		r.Eval(1)
 		w := &lwWorld{base: gitcli.TempDir("c33"), blob: map[plumbing.Hash]string{}}
@@ -231,6 +232,25 @@ func c33(args []string) error {
 					var c int
 					json.Unmarshal(s.A, &c)
 					opErr = wt.Reset(&git.ResetOptions{Commit: w.commits[c-1], Mode: git.HardReset})
+				}
+			case "use-stale":
+				// The directory of a removed worktree: opening it must not give a repository whose
+				// operations land in another worktree.  If it opens, work in it and let the state
+				// comparison below decide (the model says nothing changes).
+				if staleGit < staleGitBudget && gitcli.Available() {
+					staleGit++
+					if _, _, gerr := gitcli.Run(w.dir(s.W), nil, "rev-parse", "--git-dir"); gerr == nil {
+						r.SpecError(map[string]any{"what": "git still treats the directory of a removed worktree as a repository", "steps": h[:i+1]})
+					}
+				}
+				if repo, err := w.open(s.W); err == nil {
+					r.Extra["stale_open_accepted"] = 1
+					if wt, err := repo.Worktree(); err == nil {
+						os.WriteFile(filepath.Join(w.dir(s.W), "f"), []byte("v2\n"), 0o644)
+						if _, err := wt.Add("f"); err == nil {
+							wt.Commit("stale\n", &git.CommitOptions{Author: repoSig, Committer: repoSig})
+						}
+					}
 				}
 			case "wt-add", "wt-add-detached", "wt-remove":
 				m, err := git.PlainOpen(w.dir("main"))
